@@ -68,6 +68,11 @@ class SemDecoder:
             return 'tell'
         if last == 'unpack':
             return 'unpack'
+        if last == 'unpack_from' and call.args:
+            a0 = client.term(call.args[0 if base != 'struct' else 1] if len(call.args) > (0 if base != 'struct' else 1) else call.args[0],
+                             state, heap_ext=False)
+            if a0 in self.stream_params:
+                return 'unpack_from'
         if callee == '_next_type' or callee.endswith('._next_type'):
             return 'peek'
         if last == 'decode' and len(call.args) == 1 and isinstance(call.func, ast.Attribute):
@@ -127,6 +132,21 @@ class SemDecoder:
             # paths may differ only inside loops (how many iterations were unrolled before widening)
             pass
         s = sorted(shapes.items(), key=lambda kv: -len(kv[0]))[0][1]
+        # a decoder that works on the raw buffer by offsets (``S.unpack_from(buf, pos)``, ``buf[a:b]``) is not a sequence of
+        # stream reads: this extractor has no model of it and must not report its zero stream events as "reads nothing"
+        params = set(self.stream_params)
+        for hf in self.repo.helper_closure(f):
+            for n in ast.walk(hf.node):
+                direct = None
+                if isinstance(n, ast.Call) and isinstance(n.func, ast.Attribute) and n.func.attr == 'unpack_from' \
+                        and not any(e_.kind == 'unpack_from' and e_.line == n.lineno for e_ in s.trail):
+                    direct = 'unpack_from'
+                elif isinstance(n, ast.Subscript) and isinstance(n.value, ast.Name) and n.value.id in params \
+                        and hf is f and isinstance(n.ctx, ast.Load):
+                    direct = 'a slice of %s' % n.value.id
+                if direct:
+                    raise AnalysisError('%s: decode() reads the raw buffer by offset (%s); only stream-based decoders are '
+                                        'modelled' % (hf.loc(n), direct))
         return self._elements(s)
 
     @staticmethod
@@ -140,7 +160,7 @@ class SemDecoder:
                 depth += 1
             elif e.kind == 'loopexit':
                 depth -= 1
-            elif depth == 0 and e.kind in ('read', 'child', 'unpack'):
+            elif depth == 0 and e.kind in ('read', 'child', 'unpack', 'unpack_from'):
                 out.append((e.kind, e.line))
         return tuple(out)
 
@@ -234,6 +254,17 @@ class SemDecoder:
                     pending_reads.remove(hit[0])
                     self._flush(pending_reads, elems, friendly, fresh_name, substream_tokens)
                     self._struct_fields(e, hit[0], elems, friendly, fresh_name)
+            elif e.kind == 'unpack_from':
+                # ``S.unpack_from(raw)`` at the very start of the buffer is the read of S.size bytes followed by S.unpack;
+                # reads at computed offsets are not modelled
+                fmt_ = self._fmt_of(e)
+                args_ = list(e.args[1:]) if e.callee.rsplit('.', 1)[0] == 'struct' else list(e.args)
+                off_ = args_[1] if len(args_) > 1 else dict(e.kwargs).get('offset', '0')
+                if fmt_ is None or off_ != '0' or elems or pending_reads:
+                    raise AnalysisError('%s: decode() reads the raw buffer at offset %s; only stream-based decoders (and a '
+                                        'single struct at offset 0) are modelled' % (f.loc(), off_))
+                import struct as _st
+                self._struct_fields(e, ('RAW0', str(_st.calcsize(fmt_))), elems, friendly, fresh_name)
             elif e.kind == 'child':
                 self._flush(pending_reads, elems, friendly, fresh_name, substream_tokens)
                 tok = self._tok(e, 'CH')
